@@ -3,10 +3,10 @@ package props
 import (
 	"bytes"
 	"fmt"
-	"strconv"
 	"os"
 	"os/exec"
 	"path/filepath"
+	"strconv"
 	"strings"
 
 	"pault.ag/go/debian/version"
